@@ -79,6 +79,19 @@ class Template(Node):
         write("}}")
 
     @staticmethod
+    def _has_unescapable_equals(code):
+        """Return whether *code* has an "=" inside an external link or heading.
+
+        It cannot be escaped there and would end a hidden parameter name, so
+        the name has to be written out.
+        """
+        return any(
+            "=" in str(node)
+            for node in code.nodes
+            if isinstance(node, (ExternalLink, Heading))
+        )
+
+    @staticmethod
     def _surface_escape(code, char):
         """Return *code* with *char* escaped as an HTML entity.
 
@@ -287,7 +300,10 @@ class Template(Node):
             if showkey is not None:
                 existing.showkey = showkey
             if not existing.showkey:
-                self._surface_escape(value, "=")
+                if self._has_unescapable_equals(value):
+                    existing.showkey = True
+                else:
+                    self._surface_escape(value, "=")
             nodes = existing.value.nodes
             if preserve_spacing and existing.showkey:
                 for i in range(2):  # Ignore empty text nodes
@@ -307,13 +323,7 @@ class Template(Node):
                         int_keys.add(int(str(param.name)))
                 expected = min(set(range(1, len(int_keys) + 2)) - int_keys)
                 if expected == int_name:
-                    # An "=" inside a link or heading cannot be escaped and
-                    # would end the name, so the name is written out then:
-                    showkey = any(
-                        "=" in str(node)
-                        for node in value.nodes
-                        if isinstance(node, (ExternalLink, Heading))
-                    )
+                    showkey = self._has_unescapable_equals(value)
                 else:
                     showkey = True
             else:
